@@ -9,6 +9,11 @@ fn def_valid(v: u32) -> Option<u8> {
 }
 
 fn check_block_size_value(v: u32) -> Result<(), String> {
+    // a panic escaping from the library through any call below is a violation of this case, not a crash
+    guard_case(|| check_block_size_value_unguarded(v))
+}
+
+fn check_block_size_value_unguarded(v: u32) -> Result<(), String> {
     let got = guarded(|| block_size::is_valid(v))?;
     if got != def_valid(v).is_some() {
         return Err(format!("is_valid({}) = {}", v, got));
@@ -23,6 +28,11 @@ fn check_block_size_value(v: u32) -> Result<(), String> {
 }
 
 fn check_log(l: u8) -> Result<(), String> {
+    // a panic escaping from the library through any call below is a violation of this case, not a crash
+    guard_case(|| check_log_unguarded(l))
+}
+
+fn check_log_unguarded(l: u8) -> Result<(), String> {
     let valid = l < 31;
     if guarded(|| block_size::is_log_valid(l))? != valid {
         return Err(format!("is_log_valid({})", l));
@@ -59,6 +69,11 @@ fn check_log(l: u8) -> Result<(), String> {
 }
 
 fn check_pair(a: u8, b: u8) -> Result<(), String> {
+    // a panic escaping from the library through any call below is a violation of this case, not a crash
+    guard_case(|| check_pair_unguarded(a, b))
+}
+
+fn check_pair_unguarded(a: u8, b: u8) -> Result<(), String> {
     let d = a as i32 - b as i32;
     let exp_rel = match d {
         -1 => BlockSizeRelation::NearLt,
@@ -104,6 +119,11 @@ fn check_pair(a: u8, b: u8) -> Result<(), String> {
 }
 
 fn check_raw_score(l1: u8, l2: u8, d: u32) -> Result<u32, String> {
+    // a panic escaping from the library through any call below is a violation of this case, not a crash
+    guard_case(|| check_raw_score_unguarded(l1, l2, d))
+}
+
+fn check_raw_score_unguarded(l1: u8, l2: u8, d: u32) -> Result<u32, String> {
     let s = guarded(|| FuzzyHashCompareTarget::raw_score_by_edit_distance(l1, l2, d))?;
     let exp = 100 - (100 * ((64 * d) / (l1 as u32 + l2 as u32))) / 64;
     if s != exp || !(1..=100).contains(&s) {
@@ -113,6 +133,11 @@ fn check_raw_score(l1: u8, l2: u8, d: u32) -> Result<u32, String> {
 }
 
 fn check_cap(n: u8, l1: u8, l2: u8) -> Result<(), String> {
+    // a panic escaping from the library through any call below is a violation of this case, not a crash
+    guard_case(|| check_cap_unguarded(n, l1, l2))
+}
+
+fn check_cap_unguarded(n: u8, l1: u8, l2: u8) -> Result<(), String> {
     if l1 < 7 || l2 < 7 {
         // documented as semantically invalid: "the result is implementation-defined" (and "may cause a panic in
         // the future"), so nothing is demanded here; the call is still made so that the sanitizer-style builds see it
